@@ -38,7 +38,21 @@ def groups(tier, rng):
         rnd.append(dc.dr_case(None, 0, s, cuts(len(s), rng, rng.choice(["one", "rand", "rand"])),
                               sched(rng.choice(["all", 1, 2, 3, 7, "mixed", "mixed"]), len(s), rng),
                               rng.choice(["eof", "eof", "err"])))
+    # the same streams under a size limit at and below their length: whatever the limit does (C06), the reader never reports
+    # end-of-file on anything but the exact unstuffed stream
+    lim = []
+    for s in dc.enum_streams(L - 1):
+        t = s + dc.TAIL
+        for n in sorted({1, max(1, len(s) - 1), len(s), len(s) + 1}):
+            lim.append(dc.dr_case(n, 0, t, cuts(len(t), rng, rng.choice(["one", "rand"])), sched(rng.choice(["all", 1, 2, 3, "mixed"]), len(t), rng)))
+    for _ in range(500 if tier == "quick" else 8000):
+        body = rand_stream(rng, 40)
+        for x in (b".\r\n", b"\r.\r\n", b"a.\r\nNOOP\r\n"):
+            n = rng.randrange(1, len(body) + 2)
+            s = body[:n] + x + body[n:] + dc.TAIL
+            lim.append(dc.dr_case(n, 0, s, cuts(len(s), rng, rng.choice(["one", "rand"])), sched(rng.choice(["all", 1, 3, 7, "mixed"]), len(s), rng)))
     return [Group("dr/step-table", table, exhaustive=True, theorems=THEOREMS),
+            Group("dr/under-a-size-limit", lim, theorems=THEOREMS),
             Group("dr/enumerated", enum, theorems=THEOREMS),
             Group("dr/random", rnd, theorems=THEOREMS),
             Group("conv/data-in-connection", conv_cases(tier, rng), theorems=THEOREMS,
